@@ -588,4 +588,118 @@ example : app ⟨id, [((1, ⟨[1, 30], []⟩), ⟨1, ⟨[1, 30], []⟩, false⟩
     .asynq (Cell.callable ⟨.dedup, .plain, .inst, .plain⟩) (callerArgs .plain .inst 0 ⟨[30], []⟩) =
       .fut ⟨1, ⟨[1, 30], []⟩, false⟩ := by decide
 
+/-! ## history of the world, an overriding subclass (`XCase`) -/
+
+/-- **no history leaves anything behind**: for EVERY list of events (uses of the attribute in this or another thread,
+    helper calls, `copy` / `deepcopy` of the instances, `.asyncio()` calls that return or fail - of a helper or of the
+    attribute itself -, gc, debug options, scoped values, mock patches) and EVERY starting state: the asyncio-mode flag
+    is afterwards what it was before, and if no instance `__dict__` shadowed the attribute none does.  (Each step mirrors
+    what the code does to these two pieces of state; that the code has no third one is the correspondence run's part.) -/
+theorem C09_history_restores (raises : Bool) (s : HState) (h : List Ev) :
+    (runHistFrom raises s h).mode = s.mode ∧ (s.shadowed = [] → (runHistFrom raises s h).shadowed = []) := by
+  unfold runHistFrom
+  induction h generalizing s with
+  | nil => exact ⟨rfl, id⟩
+  | cons e es ih =>
+    have hm : (HState.step raises s e).mode = s.mode := by cases e <;> rfl
+    have hs : s.shadowed = [] → (HState.step raises s e).shadowed = [] := by
+      intro h0
+      cases e <;> simp [HState.step, aioCall, aioEnter, aioExit, h0]
+    obtain ⟨i1, i2⟩ := ih (HState.step raises s e)
+    exact ⟨by rw [List.foldl_cons, i1, hm], fun h0 => by rw [List.foldl_cons]; exact i2 (hs h0)⟩
+
+/-- from the initial world (asyncio mode off, nothing shadowed) every history ends in the initial world -/
+theorem C09_history_clean (raises : Bool) (h : List Ev) : runHist raises h = HState.init := by
+  obtain ⟨h1, h2⟩ := C09_history_restores raises HState.init h
+  have h2' := h2 rfl
+  unfold runHist
+  cases hr : runHistFrom raises HState.init h with
+  | mk m sh =>
+    rw [hr] at h1 h2'
+    simp only [HState.init] at h1 h2' ⊢
+    subst h1; subst h2'; rfl
+
+/-- **the history of the world is irrelevant**: whatever happened before, the model's observations of a case are
+    those of the case in a fresh world - so every theorem about `modelReport` / `spec` above holds after ANY history -/
+theorem C09_history_irrelevant (x : XCase) : modelReportH x = modelReport x.base := by
+  unfold modelReportH
+  rw [C09_history_clean]; rfl
+
+/-- the reset on the failing exit is needed (the shape of seeded change C09-8: a generator-based AsyncioMode without
+    try/finally): with it skipped, one failed `.asyncio()` call leaves the caller's context in asyncio mode - and the
+    model then has no report the observer would accept -/
+theorem C09_aio_exit_needed :
+    (aioCallLeaky HState.init true).mode = true ∧ (aioCallLeaky HState.init true).clean = false ∧
+    (aioCall HState.init true).clean = true ∧
+    specX ⟨⟨⟨.asynq, .plain, .inst, .gen⟩, false, .fixed, ⟨[30], []⟩, false, [], .args, .tok⟩, [.aioFail], false⟩
+      Report.undefined = false := by decide
+
+/-- **C09 as a whole, with history and override**: for every extended case of a supported cell (any history; the
+    override family where it is defined) the observations of the model are accepted by `specX`, the observer the
+    check evaluates on the observations of the real implementation -/
+theorem C09_spec_holds_ext (x : XCase) (h : supported x.base.cell.kind x.base.cell.ft x.base.cell.acc = true)
+    (ho : x.ovrOk = true) : specX x (modelReportX x) = true := by
+  unfold specX modelReportX refReportX
+  rw [h, ho, C09_history_irrelevant, modelReport_eq_ref x.base h]
+  cases x.ovr <;> simp [reportClause_self]
+
+/-- **the extended observer is exact** -/
+theorem C09_spec_exact_ext (x : XCase) (r : Report) :
+    specX x r = true ↔
+      (supported x.base.cell.kind x.base.cell.ft x.base.cell.acc = true ∧ x.ovrOk = true ∧ r = refReportX x) := by
+  unfold specX
+  rw [Bool.and_eq_true, Bool.and_eq_true, Option.isNone_iff_eq_none, reportClause_none_iff]
+  constructor
+  · rintro ⟨⟨h1, h2⟩, h3⟩; exact ⟨h1, h2, h3.symm⟩
+  · rintro ⟨h1, h2, h3⟩; exact ⟨⟨h1, h2⟩, h3.symm⟩
+
+/-- **the extension is conservative**: without an override `specX` IS `spec` of the underlying case - for every
+    history - so what `C09_spec_exact` and the theorems about the reference table say is what the check enforces -/
+theorem C09_ext_conservative (x : XCase) (r : Report) (h : x.ovr = false) : specX x r = spec x.base r := by
+  unfold specX spec refReportX XCase.ovrOk
+  simp [h]
+
+/-- **what the override family expects** (a corollary of `C09_outcome` pushed through `ovrObs`; it is an expectation
+    on observations, not a model of `super()`): for every asynchronous convention that is run, the overriding body
+    (identity 5) is entered with exactly the bound parameters the inherited body (identity 1) is then entered with,
+    and the outcome is the inherited body's; nothing is entered when the arguments do not bind -/
+theorem C09_override_log (c : Cell) (a : Args) (keyOf : Args → Args) (s : Sig) (raises : Bool) (cv : Cv)
+    (h : supported c.kind c.ft c.acc = true) (hv : available c.kind cv = true) (hr : c.rawGen = false)
+    (hf : cv.inFlight = false) :
+    (ovrObs (obsOf s raises cv (modelCv (Env.idle keyOf) c cv a))).log =
+        (match bind s (refArgs c.ft c.acc 0 a) with
+         | some seen => [⟨5, seen, true⟩, ⟨1, seen, true⟩]
+         | none => []) ∧
+    (ovrObs (obsOf s raises cv (modelCv (Env.idle keyOf) c cv a))).out =
+        (match bind s (refArgs c.ft c.acc 0 a) with
+         | some _ => bodyOutcome raises 1 c.kind.userWrapped
+         | none => .raised .typeError) := by
+  obtain ⟨ho, hl⟩ := C09_outcome c a keyOf s raises cv h hv hr
+  have hne : cv ≠ .twin := by intro e; subst e; simp [Cv.inFlight] at hf
+  have hcv : (obsOf s raises cv (modelCv (Env.idle keyOf) c cv a)).cv = cv := rfl
+  unfold ovrObs
+  rw [hcv, hf]
+  simp only [Bool.false_eq_true, if_false]
+  rw [hl hne, ho]
+  cases bind s (refArgs c.ft c.acc 0 a) <;> simp [ovrLog]
+
+/-- the history and override dimensions at work: a pair method fetched through an instance of the subclass that
+    overrides it, after a use, a copy and a failed `.asyncio()` call - the synchronous call enters the overriding
+    sync_fn and then the inherited one, both with the instance -/
+example :
+    (modelReportX ⟨⟨⟨.pair, .plain, .subInst, .gen⟩, false, .fixed, ⟨[30], []⟩, false, [], .args, .tok⟩,
+        [.use, .copy, .aioFail], true⟩).obs.head? =
+      some ⟨.sync, [⟨6, [3, 30, 20, 0, 0, 21, 0], true⟩, ⟨2, [3, 30, 20, 0, 0, 21, 0], true⟩], .ok 2 false, false⟩ := by decide
+
+/-- ... what seeded change C09-9 produces after a use (the cached binder of the INHERITED attribute answers: the
+    overriding body is skipped) is rejected -/
+example :
+    specX ⟨⟨⟨.pair, .plain, .subInst, .gen⟩, false, .fixed, ⟨[30], []⟩, false, [], .args, .tok⟩, [.use], true⟩
+      (modelReport ⟨⟨.pair, .plain, .subInst, .gen⟩, false, .fixed, ⟨[30], []⟩, false, [], .args, .tok⟩) = false := by decide
+
+/-- ... and an override case outside the family is rejected whatever was observed -/
+example :
+    specClauseX ⟨⟨⟨.pair, .classm, .subCls, .gen⟩, false, .fixed, ⟨[30], []⟩, false, [], .recv, .tok⟩, [], true⟩
+      Report.undefined = "unsupported-override" := by decide
+
 end AsynqModel.Decorators
